@@ -24,6 +24,9 @@ import (
 	"trpc.group/trpc-go/trpc-mcp-go/internal/retry"
 )
 
+// maxStreamLineSize bounds a single line read from a background stream (SSE frame, stderr line).
+const maxStreamLineSize = 1 << 30
+
 // streamableHTTPClientTransport implements an HTTP-based MCP transport
 type streamableHTTPClientTransport struct {
 	// Server URL
@@ -708,6 +711,9 @@ func (t *streamableHTTPClientTransport) connectGetSSE(ctx context.Context) error
 // Handle GET SSE event stream
 func (t *streamableHTTPClientTransport) handleGetSSEEvents(ctx context.Context, body io.ReadCloser) error {
 	scanner := bufio.NewScanner(body)
+	// A frame is one line: lift the Scanner's default 64 KiB token limit, which would otherwise end
+	// the listening stream (and silently lose every later frame) on the first large message.
+	scanner.Buffer(make([]byte, 0, 64*1024), maxStreamLineSize)
 	var eventID, eventData string
 
 	for scanner.Scan() {
